@@ -205,3 +205,56 @@ Proof. intros He. unfold run_enc. rewrite (expand_progs_eq _ _ _ He (req_variant
 Theorem run_enc_rsp t m r : expand_progs t = expand_progs rsp_enc_prog_model ->
   run_enc t m (rsp_variant r) (fc_value (rsp_fc r)) (rsp_fields r) = Some (enc_rsp m r).
 Proof. intros He. unfold run_enc. rewrite (expand_progs_eq _ _ _ He (rsp_variant_in r)). apply rsp_enc_prog_model_ok. Qed.
+
+(* ---- the frame encoders ---- *)
+Lemma enc_req_never_fails m r k : enc_req m r <> Fail k.
+Proof.
+  destruct r; cbn [enc_req]; try discriminate;
+    unfold u16_len, u8_len; repeat match goal with |- context [if ?c then _ else _] => destruct c end; cbn [bind]; try discriminate;
+    repeat match goal with |- context [if ?c then _ else _] => destruct c; cbn [bind] end; discriminate.
+Qed.
+Lemma enc_rsp_never_fails m r k : enc_rsp m r <> Fail k.
+Proof.
+  destruct r; cbn [enc_rsp]; try discriminate;
+    unfold u16_len, u8_len; repeat match goal with |- context [if ?c then _ else _] => destruct c end; cbn [bind]; try discriminate;
+    repeat match goal with |- context [if ?c then _ else _] => destruct c; cbn [bind] end; discriminate.
+Qed.
+Lemma enc_rr_never_fails m rr k : enc_rr m rr <> Fail k.
+Proof.
+  destruct rr as [r|e]; cbn [enc_rr]; [apply enc_rsp_never_fails|].
+  unfold enc_exc. repeat match goal with |- context [if ?c then _ else _] => destruct c end; discriminate.
+Qed.
+
+Theorem rtu_toks_agree m h size pdu : (forall k, pdu <> Fail k) ->
+  enc_agrees (run_toks m h 0 size pdu rtu_frame_toks [] 0) (_ <- size ;; p <- pdu ;; Val (rtu_frame (snd h) p)).
+Proof.
+  intros Hp. unfold rtu_frame_toks. destruct size as [n|k|]; cbn [run_toks bind enc_agrees snd]; try reflexivity.
+  destruct pdu as [bs|k|]; cbn [bind enc_agrees snd app]; try reflexivity; try (exfalso; eapply Hp; reflexivity).
+Qed.
+
+Theorem tcp_toks_agree m h size pdu : (forall k, pdu <> Fail k) ->
+  enc_agrees (run_toks m h 0 size pdu tcp_frame_toks [] 0) (sz <- size ;; l <- u16_len m (sz + 1) ;; p <- pdu ;; Val (mbap h l ++ p)).
+Proof.
+  intros Hp. unfold tcp_frame_toks. destruct size as [n|k|]; cbn [run_toks bind enc_agrees snd]; try reflexivity.
+  assert (Hu : forall e, u16_len m (n + 1) <> Fail e) by (intros e; unfold u16_len; repeat match goal with |- context [if ?c then _ else _] => destruct c end; discriminate).
+  destruct (u16_len m (n + 1)) as [l|e|]; cbn [bind enc_agrees snd]; try reflexivity; try (exfalso; eapply Hu; reflexivity).
+  destruct pdu as [bs|k|]; cbn [bind enc_agrees snd app]; try reflexivity; try (exfalso; eapply Hp; reflexivity);
+    unfold mbap; cbn [app]; rewrite <- ?app_assoc; reflexivity.
+Qed.
+
+(* a program whose normal form is the model's: the code's encoder agrees with the model's *)
+Definition run_frame (ps : list fop) (m : mode) (h : hdr) (pid : N) (size : outcome N) (pdu : outcome (list N)) : option (list N * outcome unit) :=
+  option_map (fun ts => run_toks m h pid size pdu ts [] 0) (compile_frame ps false false false).
+
+Theorem rtu_client_frame_agrees ps m h r : compile_frame ps false false false = Some rtu_frame_toks ->
+  exists run, run_frame ps m h 0 (req_size_chk r) (enc_req m r) = Some run /\ enc_agrees run (rtu_client_enc m h r).
+Proof. intros Hc. unfold run_frame. rewrite Hc. eexists. split; [reflexivity|]. apply rtu_toks_agree. apply enc_req_never_fails. Qed.
+Theorem rtu_server_frame_agrees ps m h rr : compile_frame ps false false false = Some rtu_frame_toks ->
+  exists run, run_frame ps m h 0 (rr_size_chk rr) (enc_rr m rr) = Some run /\ enc_agrees run (rtu_server_enc m h rr).
+Proof. intros Hc. unfold run_frame. rewrite Hc. eexists. split; [reflexivity|]. apply rtu_toks_agree. apply enc_rr_never_fails. Qed.
+Theorem tcp_client_frame_agrees ps m h r : compile_frame ps false false false = Some tcp_frame_toks ->
+  exists run, run_frame ps m h 0 (req_size_chk r) (enc_req m r) = Some run /\ enc_agrees run (tcp_client_enc m h r).
+Proof. intros Hc. unfold run_frame. rewrite Hc. eexists. split; [reflexivity|]. apply tcp_toks_agree. apply enc_req_never_fails. Qed.
+Theorem tcp_server_frame_agrees ps m h rr : compile_frame ps false false false = Some tcp_frame_toks ->
+  exists run, run_frame ps m h 0 (rr_size_chk rr) (enc_rr m rr) = Some run /\ enc_agrees run (tcp_server_enc m h rr).
+Proof. intros Hc. unfold run_frame. rewrite Hc. eexists. split; [reflexivity|]. apply tcp_toks_agree. apply enc_rr_never_fails. Qed.
